@@ -14,6 +14,9 @@ package mbolt
 import (
 	"bytes"
 	"errors"
+	"os"
+
+	"go.etcd.io/bbolt"
 
 	berrors "go.etcd.io/bbolt/errors"
 )
@@ -116,7 +119,37 @@ type DB struct {
 
 type Stats struct{ TxN int }
 
-func NewDB() *DB { return &DB{root: &node{}, path: "/mbolt/db"} }
+// registry of model databases by path (bbolt.Open of a path that was written
+// before yields the same content)
+var registry = map[string]*DB{}
+var dbCounter int
+
+func NewDB() *DB {
+	dbCounter++
+	db := &DB{root: &node{}, path: "/mbolt/db" + string(rune('0'+dbCounter))}
+	registry[db.path] = db
+	return db
+}
+
+// Open models bbolt.Open: the database stored at path, created empty if new.
+func Open(path string, mode os.FileMode, options *bbolt.Options) (*DB, error) {
+	if db, ok := registry[path]; ok {
+		db.closed = false
+		return db, nil
+	}
+	db := &DB{root: &node{}, path: path}
+	registry[path] = db
+	return db, nil
+}
+
+// Fork registers a copy of db's committed content under path (what
+// tx.CopyFile produces).
+func Fork(db *DB, path string) *DB {
+	c := &DB{root: db.root.clone(), path: path}
+	c.root.normalize()
+	registry[path] = c
+	return c
+}
 
 func (db *DB) Path() string     { return db.path }
 func (db *DB) Close() error     { db.closed = true; return nil }
@@ -244,6 +277,15 @@ func (db *DB) View(fn func(*Tx) error) error {
 	tx.managed = false
 	tx.rollback()
 	return err
+}
+
+// CopyFile models tx.CopyFile: the transaction's view of the database becomes
+// the content of the database at path.
+func (tx *Tx) CopyFile(path string, mode os.FileMode) error {
+	c := &DB{root: tx.root.n.clone(), path: path}
+	c.root.normalize()
+	registry[path] = c
+	return nil
 }
 
 func (tx *Tx) Bucket(name []byte) *Bucket { return tx.root.Bucket(name) }
